@@ -1,10 +1,14 @@
 #!/bin/bash
 # usage: tools/try_seed.sh <worktree> <prop> [more props...]  -- demo with/without the change, then the checks against the worktree
+# (the change is taken off and put back with `git apply`, never `git stash`: the stash is shared between worktrees)
 wt=$1; shift
+pf=$(mktemp /tmp/tryseed.XXXXXX.diff)
+(cd $wt && git diff -- coxeter > $pf)
+[ -s $pf ] || { echo "no change under coxeter/ in $wt"; exit 2; }
 echo "--- demo WITH change:"; (cd $wt && PYTHONPATH=$wt timeout 900 /venv/bin/python demo.py 2>&1 | tail -2 | cut -c1-220; echo "exit=${PIPESTATUS[0]}")
-(cd $wt && git stash -q -- coxeter)
+(cd $wt && git apply -R $pf)
 echo "--- demo WITHOUT change:"; (cd $wt && PYTHONPATH=$wt timeout 900 /venv/bin/python demo.py 2>&1 | tail -1 | cut -c1-220; echo "exit=${PIPESTATUS[0]}")
-(cd $wt && git stash pop -q)
+(cd $wt && git apply $pf) && rm -f $pf
 for p in "$@"; do for sd in ${SEEDS:-0 1 2}; do
   VERIF_SEED=$sd VERIF_REPO_ROOT=$wt VERIF_NO_EVIDENCE=1 /venv/bin/python /verif/vcheck.py $p | grep -v "^KNOWN" | tail -3 | cut -c1-230
 done; done
